@@ -53,6 +53,12 @@ CHECKS["C12"] = dict(
    text="All reachable states of the real RtpRouter for small universes (2-3 receivers, 1-2 senders, 2-3 SSRCs, 1-3 payload types) are enumerated by BFS with an exact canonical state (every attribute of the router); in each state the complete alphabet - register_receiver with every SSRC subset x payload-type subset, unregister, sender (un)registration, RTP with every (ssrc, pt), SR/RR/BYE/REMB with every SSRC subset, NACK, PLI, SDES, malformed REMB - is applied to a copy of the real object and to a dict-based reference model and the answers compared; plus all histories of length <= 3 through RTCDtlsTransport._register_*/_handle_rtp_data/_handle_rtcp_data with serialised packets, comparing the callbacks invoked.",
    note="Universe bounded as listed in the evidence; mid is not used for routing by the implementation.",
    design="2/C12")
+CHECKS["C10"] = dict(
+   level="model_checking",
+   technique="explicit-state exploration of the real JitterBuffer as a complete depth-bounded tree of arrival sequences (all sequences up to depth D over a 14-symbol offset alphabet, from 3 start states), oracle on extended indices after every add; exhaustive bounded-displacement permutations for completeness",
+   text="Every arrival sequence of length <= 4 (quick) / 5 (thorough), and one level deeper on 8 configurations, over offsets {+1,+2,+3,dup,-1,-2,-3,+cap-1,+cap,+cap+1,-99,-100,-101,+32767} relative to the highest sequence seen is applied to the real JitterBuffer from an empty, an almost full and an already overflowed buffer, for 96 configurations (capacity 4..128, prefetch 0..4, audio/video, first sequence number 0 / 65530, two frame-size patterns). After every add: no exception, occupancy, frame = consecutive received packets with one timestamp, no reuse / monotone order while nothing arrived >= 100 late, PLI on discard. Completeness over all bounded-displacement permutations with an in-order continuation.",
+   note="Extended indices kept by the harness; completeness demanded only for displacement bounds where the statement's premise certainly holds (see DESIGN 2/C10).",
+   design="2/C10")
 NOT_YET = {}
 
 def main():
